@@ -363,6 +363,56 @@ Proof.
   vm_compute in Ep. inversion Ep. vm_compute. intros E. discriminate E.
 Qed.
 
+(* ------------------------------------------------------------------------------------ *)
+(* 6. the allowance-spending entry points (SendFrom / BurnFrom / DecreaseAllowance)       *)
+(* ------------------------------------------------------------------------------------ *)
+(* They need no disjunct of their own in [clean_op]: SendFrom with a withdraw (or unusable) hook, BurnFrom and
+   DecreaseAllowance are [swapless]; a SendFrom carrying a swap or router hook is not, so a history in which such an
+   operation succeeds is simply not [clean] (its one-step form is [exec_hook_swap_from_value]).
+   The LP holder 1000 lets user 1001 spend its LP of pair 5 (token 6): 1001 withdraws 1000 LP of 1000's (the proceeds
+   go to 1001, the hook's sender), burns 10 more, 1000 revokes the rest (the entry is removed), and a further
+   BurnFrom is rejected. *)
+Definition ex_from : list op :=
+  [ OIncreaseAllowance 6 1000 1001 5000;
+    OSendFrom 6 1001 1000 5 1000 HWithdraw;
+    OBurnFrom 6 1001 1000 10;
+    ODecreaseAllowance 6 1000 1001 100000;
+    OBurnFrom 6 1001 1000 1 ].
+
+Lemma ex_from_user : user_ops ex_w ex_from.
+Proof. unfold ex_from. cbn [user_ops]. repeat split; not_contract. Qed.
+
+Lemma ex_from_clean : clean_ops ex_w ex_from.
+Proof. unfold clean_ops, ex_from. cbn [cl_ops]. repeat split; intros w' E; left; reflexivity. Qed.
+
+Example run_clean_value_from_example :
+  exists ps, w_pairs ex_w 5 = Some ps /\
+    pool_at ex_w 5 ps = (1000000, 1000000, 1000000) /\
+    pool_at (run ex_w ex_from) 5 ps = (999000, 999000, 998990) /\
+    (* the owner's LP is debited, the spender gets the proceeds, the allowance entry is gone *)
+    bal (run ex_w ex_from) (AToken 6) 1000 + 1010 = bal ex_w (AToken 6) 1000 /\
+    bal (run ex_w ex_from) (ANative 0) 1001 = bal ex_w (ANative 0) 1001 + 1000 /\
+    bal (run ex_w ex_from) (AToken 2) 1001 = bal ex_w (AToken 2) 1001 + 1000 /\
+    (exists tk, w_tokens (run ex_w ex_from) 6 = Some tk /\ t_allow tk 1000 1001 = None) /\
+    value_le (pool_at ex_w 5 ps) (pool_at (run ex_w ex_from) 5 ps) /\ 0 < supply (run ex_w ex_from) (p_lp ps).
+Proof.
+  destruct ex_w_inv as (HW & HS & HI & Hr).
+  destruct (w_pairs ex_w 5) as [ps|] eqn:Ep; [|vm_compute in Ep; discriminate Ep].
+  exists ps. split; [reflexivity|].
+  assert (Hpos : 0 < supply ex_w (p_lp ps)).
+  { vm_compute in Ep. inversion Ep. vm_compute. reflexivity. }
+  split; [vm_compute in Ep; inversion Ep; vm_compute; reflexivity|].
+  split; [vm_compute in Ep; inversion Ep; vm_compute; reflexivity|].
+  split; [vm_compute; reflexivity|]. split; [vm_compute; reflexivity|]. split; [vm_compute; reflexivity|].
+  split.
+  { destruct (w_tokens (run ex_w ex_from) 6) as [tk|] eqn:Et; [|vm_compute in Et; discriminate Et].
+    exists tk. split; [reflexivity|]. vm_compute in Et. inversion Et. reflexivity. }
+  apply run_clean_value; try assumption.
+  - exact ex_from_user.
+  - vm_compute. intros E. discriminate E.
+  - exact ex_from_clean.
+Qed.
+
 Print Assumptions exec_clean_value.
 Print Assumptions run_clean_path.
 Print Assumptions run_clean_value.
@@ -371,3 +421,4 @@ Print Assumptions run_clean_path_router.
 Print Assumptions run_clean_value_router.
 Print Assumptions run_clean_value_example.
 Print Assumptions run_clean_value_router_example.
+Print Assumptions run_clean_value_from_example.
